@@ -886,3 +886,78 @@ def loop_scope_hits(fn):
             seen.add(name)
             hits.append((name, line))
     return hits
+
+
+def stale_iteration_reads(fn):
+    """reads, inside a loop body, of a plain local that the same loop body assigns only
+    *after* the read (and that is not an accumulator): the read sees the value of the
+    previous iteration - or, in the first iteration, whatever an earlier loop left behind.
+    Returns [(name, line of the read, line of the later definition)]."""
+    params = {a.arg for a in fn.args.args}
+    accum = set()
+    for n in ast.walk(fn):
+        if isinstance(n, ast.AugAssign) and isinstance(n.target, ast.Name):
+            accum.add(n.target.id)
+        # x = x + ... style accumulators
+        if isinstance(n, ast.Assign) and len(n.targets) == 1 and isinstance(n.targets[0], ast.Name):
+            if any(isinstance(m, ast.Name) and m.id == n.targets[0].id for m in ast.walk(n.value)):
+                accum.add(n.targets[0].id)
+    hits = []
+
+    def events(body, out):
+        """program-order events of one loop body (nested loops included): ('use'|'def', name, line)"""
+        for st in body:
+            if isinstance(st, ast.For):
+                for n in ast.walk(st.iter):
+                    if isinstance(n, ast.Name):
+                        out.append(('use', n.id, n.lineno))
+                for t in ast.walk(st.target):
+                    if isinstance(t, ast.Name):
+                        out.append(('def', t.id, st.lineno))
+                events(st.body, out)
+            elif isinstance(st, (ast.If, ast.While)):
+                for n in ast.walk(st.test):
+                    if isinstance(n, ast.Name):
+                        out.append(('use', n.id, n.lineno))
+                events(st.body, out)
+                events(st.orelse, out)
+            elif isinstance(st, ast.With):
+                events(st.body, out)
+            elif isinstance(st, (ast.Assign, ast.AugAssign)):
+                for n in ast.walk(st.value):
+                    if isinstance(n, ast.Name) and isinstance(n.ctx, ast.Load):
+                        out.append(('use', n.id, n.lineno))
+                tg = st.targets if isinstance(st, ast.Assign) else [st.target]
+                for t in tg:
+                    if isinstance(t, ast.Name):
+                        out.append(('def', t.id, st.lineno))
+                    elif isinstance(t, ast.Tuple):
+                        for e in t.elts:
+                            if isinstance(e, ast.Name):
+                                out.append(('def', e.id, st.lineno))
+                    else:
+                        for n in ast.walk(t):
+                            if isinstance(n, ast.Name) and isinstance(n.ctx, ast.Load):
+                                out.append(('use', n.id, n.lineno))
+            elif isinstance(st, (ast.Expr, ast.Return)) and getattr(st, 'value', None) is not None:
+                for n in ast.walk(st.value):
+                    if isinstance(n, ast.Name) and isinstance(n.ctx, ast.Load):
+                        out.append(('use', n.id, n.lineno))
+
+    seen = set()
+    for loop in [n for n in ast.walk(fn) if isinstance(n, ast.For)]:
+        ev = []
+        events(loop.body, ev)
+        defined = set(t.id for t in ast.walk(loop.target) if isinstance(t, ast.Name))
+        first_def = {}
+        for kind, name, line in ev:
+            if kind == 'def':
+                first_def.setdefault(name, line)
+        done = set(defined)
+        for kind, name, line in ev:
+            if kind == 'def':
+                done.add(name)
+            elif name not in done and name in first_def and name not in params and name not in accum and (name, line) not in seen:
+                seen.add((name, line))
+                hits.append((name, line, first_def[name]))
+    return hits
